@@ -44,9 +44,14 @@ THEOREMS = [
     "C04_settings_valid_over_all_histories",
     "C04_code_facts_are_the_model",
     "C04_direction_model_is_real_field",
+    "C04_rounded_exponent_within_exact",
+    "C04_gaussian_radial_integral",
+    "C04_gaussian_normalisation_rate",
 ]
 
-CODES = {7: "source density", 8: "SingleRayAttenuator.density called directly", 0: "agree", 100: "ambiguous", 9: "constants", 1: "number of axis nodes", 2: "stopping-rate arguments",
+CODES = {201: "bit-exact replay: speed is not the correctly rounded root", 202: "bit-exact replay: an argument of np.exp differs",
+         203: "bit-exact replay: a node value of the interpolator differs in the last bits", 204: "bit-exact replay: shape",
+         7: "source density", 8: "SingleRayAttenuator.density called directly", 0: "agree", 100: "ambiguous", 9: "constants", 1: "number of axis nodes", 2: "stopping-rate arguments",
          3: "stopping coefficient values", 5: "oracle table miss / negative line density", 4: "density", 6: "direction"}
 
 
@@ -100,6 +105,15 @@ def case_parts(case, out):
             "adens": "[" + "; ".join("(%s, %s, %s, %s)" % tuple(qlit(v) for v in p) for p in out["adens"]) + "]"}
 
 
+def exact_txt(ex):
+    terms = "[" + ";\n     ".join("[" + "; ".join("(%s, %s, %s)" % (qlit(a), qlit(b), qlit(c)) for a, b, c in row) + "]" for row in ex["terms"]) + "]"
+    etab = "[" + "; ".join("(%s, %s)" % (qlit(a), qlit(v)) for a, v in ex["etab"]) + "]"
+    ys = "[" + "; ".join(qlit(y) for y in ex["ys"]) + "]"
+    return "check_nodes_exact %s %s %s %s %s %s %s %s\n    %s\n    %s\n    %s" % (
+        qlit(ex["L"]), zlit(ex["n"]), qlit(ex["P"]), qlit(ex["E"]), qlit(ex["m"]), qlit(ex["ec"]), qlit(ex["cf"]), qlit(ex["speed"]),
+        terms, etab, ys)
+
+
 def case_txt(case, out):
     p = case_parts(case, out)
     return "check_case\n   %s\n   %s %s\n   %s\n   %s\n   %s %s %s\n   %s\n   %s\n   %s\n   %s" % (
@@ -113,6 +127,14 @@ def run(ctx):
         "Coq standard-library real-number axioms (ClassicalDedekindReals.sig_forall_dec, sig_not_dec, "
         "functional_extensionality_dep, classic) under C04_streamline_invariant / C04_streamline_constant / C04_direction_model_is_real_field only (Coquelicot, Coq.Reals); every other theorem is "
         "closed under the global context",
+        "Coq.Reals axioms + classic + functional extensionality also under C04_gaussian_radial_integral / "
+        "C04_gaussian_normalisation_rate (Coquelicot RInt); Proofs/C04_GaussInterval.v (CoqInterval: 5-sigma tail 3.7266531720786709e-6, "
+        "1-D mass inside +-8 sigma to 1e-12; PrimInt63/Uint63 primitives) is compiled on every run but is not a property theorem "
+        "(coqchk over the Interval library takes > 50 min)",
+        "Proofs/C16_Round.v round53_rel (relative error 2^-53 of round53) is imported by Proofs/C04_Float.v; Model/C04_Float.v keeps a verbatim "
+        "copy of round53 (proved equal by reflexivity) so that generated files depend on C04 files only",
+        "bit-exact replay: numpy linspace / diff / cumsum / exp element order as modelled in Model/C04_Float.v; np.exp values are libm's "
+        "(keyed by the exact double argument, which the model must reproduce bit for bit); np.sqrt is checked to be correctly rounded",
         "harness/c04_translate.py (fail-closed regex translator of node.pyx / singleray.pyx, 90 lines); harness/c04.py + c04_impl.py: scene builder, stub species/rates (uniform, linear, step profiles; constant/affine rates), "
         "Q literal printer, comparator Model/C04_Check.v",
         "libm exp/tan/sqrt, numpy linspace/exp, scipy cumulative_trapezoid, raysect Interpolator1DArray, AffineMatrix3D and "
@@ -128,7 +150,7 @@ def run(ctx):
         "with clamp_to_zero the cross-section integral loses the documented tail exp(-clamp_sigma^2/2); the search accounts for it",
     ]
     ctx.rebuild()
-    ctx.proofs("Properties.C04", THEOREMS, extra_modules=("Model.C04_Check", "Model.C04_Policy"))
+    ctx.proofs("Properties.C04", THEOREMS, extra_modules=("Model.C04_Check", "Model.C04_Policy", "Proofs.C04_GaussInterval"))
 
     import cherab
     from common import REPO
@@ -148,8 +170,8 @@ def run(ctx):
 
     rng = ctx.rng
     # ---- setter histories on live objects vs the state machine of Model/C04_Policy.v (evaluated by Coq) ----
-    n_sets = 12 if ctx.quick else 60
-    set_hist = [impl.gen_sets(rng, rng.choice([1, 2, 5, 20, 40])) for _ in range(n_sets)]
+    n_sets = 6 if ctx.quick else 60
+    set_hist = [impl.gen_sets(rng, rng.choice([1, 2, 5, 20] if ctx.quick else [1, 2, 5, 20, 40])) for _ in range(n_sets)]
     items = []
     bools = lambda bs: "[" + "; ".join("true" if b else "false" for b in bs) + "]"
     for ops in set_hist:
@@ -169,7 +191,7 @@ def run(ctx):
         ctx.violation("c04-setters", "a setter of Beam / SingleRayAttenuator accepts or rejects a value against the documented guard, "
                       "or a getter does not return what was set", {"ops": set_hist[i], "raised": [not k for k in oks],
                                                                      "getters": finals}, found=True)
-    n_cases = 36 if ctx.quick else 400
+    n_cases = 28 if ctx.quick else 400
     cases = impl.corpus_cases() + [impl.gen_case(rng, i) for i in range(n_cases)]
     if ctx.replay:
         # re-run the single configuration stored in a replay file (correspondence + thorough search)
@@ -205,7 +227,28 @@ def run(ctx):
         txt = ("Require Import Cherab.Common.Qx Cherab.Model.C04_Beam Cherab.Model.C04_Check.\nOpen Scope Q_scope.\n"
                "Definition results : list Z := [\n  " + body + "].\nEval vm_compute in results.\n")
         files.append((ctx.write_gen("cases_%03d.v" % (fi // per_file), txt), ids))
-    res = coqc_many([f for f, _ in files], timeout=1200)
+    # bit-exact replay of the attenuation loop (round53), one file per ~10 cases
+    ex_ids = [i for i in range(len(cases)) if outs[i].get("exact")]
+    ex_files = []
+    for fi in range(0, len(ex_ids), 10):
+        ids = ex_ids[fi:fi + 10]
+        txt = ("Require Import Cherab.Common.Qx Cherab.Model.C04_Float Cherab.Model.C04_Check.\nOpen Scope Q_scope.\n"
+               "Eval vm_compute in [\n  " + ";\n  ".join("(%s)" % exact_txt(outs[i]["exact"]) for i in ids) + "].\n")
+        ex_files.append((ctx.write_gen("exact_%03d.v" % (fi // 10), txt), ids))
+    res = coqc_many([f for f, _ in files] + [f for f, _ in ex_files], timeout=1200)
+    ex_bad = []
+    for f, ids in ex_files:
+        ok, o = res[f]
+        vals = parse_evals(o) if ok else []
+        zs = parse_zlist(vals[0]) if ok and len(vals) == 1 else []
+        good = ok and len(zs) == len(ids)
+        bad = [(i, z) for i, z in zip(ids, zs) if z != 0]
+        ctx.obligation("bit-exact replay of the attenuation loop %s (%d cases: every double of linspace, the stopping sum, the "
+                       "cumulative trapezoid, the source density and the node values)" % (os.path.basename(f), len(ids)),
+                       "correspondence", good and not bad, o if not good else "DIFF (case, code): %s" % bad)
+        if not good:
+            ctx.broken.append("coqc failed on %s: %s" % (f, o[-800:]))
+        ex_bad += bad
     codes = {}
     for f, ids in files:
         ok, o = res[f]
@@ -220,7 +263,10 @@ def run(ctx):
             ctx.broken.append("coqc failed on %s: %s" % (f, o[-800:]))
         for i, z in zip(ids, zs):
             codes[i] = z
-    diff = [i for i in sorted(codes) if codes[i] % 1000 not in (0, 100)]
+    diff = [i for i in sorted(codes) if codes[i] % 1000 not in (0, 100)] + [i for i, _ in ex_bad if codes.get(i, 0) % 1000 in (0, 100)]
+    for i, z in ex_bad:
+        if codes.get(i, 0) % 1000 in (0, 100):
+            codes[i] = 200 + z
     amb_cases = [i for i in codes if codes[i] % 1000 == 100]
     amb_probes = sum(codes[i] // 1000 for i in codes)
     ctx.log("correspondence: %d cases, %d disagree, %d ambiguous cases, %d ambiguous probes" %
@@ -303,13 +349,18 @@ def run(ctx):
                       "exp table key": "2^-46 (1+|x|)", "ambiguity margin": "2^-30 (clamp radius, step profile), 2^-40 (node count)",
                       "search": "flux 1e-7 + discretisation allowance; monotone 1e-12; streamline 1e-7; live vs fresh object and "
                                 "construction routes: bit-identical; species order 1e-10 (+1e-15 of the on-axis maximum)"},
-        "compared": ["source facts = model facts (kernel, exact)", "setter outcomes ValueError/ok (exact) and getters (2^-52)",
+        "compared": ["attenuation loop replayed in double precision (round53): linspace nodes, stopping sum, cumulative trapezoid, "
+                     "source density, every argument of np.exp and every node value of the interpolator except the last: BIT-EXACT",
+                     "source facts = model facts (kernel, exact)", "setter outcomes ValueError/ok (exact) and getters (2^-52)",
                      "lookup keys (exact)", "node count (exact)", "rate arguments and coefficients per node (2^-40)",
                      "attenuator._source_density (2^-40)", "_tanxdiv/_tanydiv/_step (exact), _clamp_sigma_sqr (1 ulp)",
                      "attenuator.density direct: ValueError domain (exact), values (2^-36 + interpolation allowance)",
                      "Beam.density zero-set (exact), values (2^-36 + interpolation allowance)", "Beam.direction (2^-45 unit, 2^-40 parallel)",
                      "live vs fresh object after every mutation (bit-identical)"],
-        "partial": ["C04_flux_clamped_partial: same integral laws without the Gaussian normalisation; the value of the cut-off Gaussian "
+        "partial": ["the passage from the plane integral to polar coordinates (Fubini + Jacobian) is the one analytic step left between "
+                    "C04_gaussian_radial_integral / C04_gaussian_normalisation_rate (proved over R) and the two numbers assumed in "
+                    "C04_flux_partial and C04_flux_clamped_partial",
+                    "C04_flux_clamped_partial: same integral laws without the Gaussian normalisation; the value of the cut-off Gaussian "
                     "integral, 1 - exp(-clamp_sigma^2/2), is a hypothesis of its second conjunct",
                     "C04_flux_partial / C04_flux_no_stopping_partial: the cross-section integral is an abstract functional with "
                     "the change-of-variables law and the Gaussian normalisation as hypotheses (analytic facts not proved)",
